@@ -9,5 +9,6 @@ pub mod model;
 pub mod refclass;
 pub mod rs;
 pub mod sweep;
+pub mod vocab;
 pub mod bcalls;
 pub mod fuzzing;
